@@ -9,6 +9,26 @@ CHECKS = {
          "Complete enumeration of the stated finite domain per base value: every difference d, every increment n <= 2^31-1, every 32-bit wire value; the oracle is the RFC 1982 table written independently in the harness. For the enumerated bases this is a decision, not a sample; bases other than the boundary ones are seed-derived.",
          "Trusts the harness' own table and u32 arithmetic; bases are a finite set (comparison depends only on d, which the enumeration shows for each base separately).",
          "DESIGN.md §3 C16"),
+ "C06": ("model-based stateful PBT: generated histories of source updates / notifies / client steps / reconnects over the real rtr::Server and rtr::Client (in-memory sockets, paused-clock current_thread runtime) against a reference payload-history model",
+         "Exploration of generated histories (proptest, shrinking) with the oracle checked after every client step: data applied through PayloadTarget == source snapshot named by Client::state() restricted to the negotiated version, state and timing equality, failed steps apply nothing. Reaches version downgrade, diff vs reset vs cache-reset fallback, serial wrap, mid-response updates, which the example tests cannot.",
+         "Single-threaded scheduler owned by the harness; reference source/model in rtrsim.rs is trusted; absence is not proven beyond the explored histories.",
+         "DESIGN.md §3 C06"),
+ "C07": ("round-trip + fault-injection PBT: generated PDUs / PDU sequences written and read back through every reader; every truncation point and header corruption against a reference model of the type/length/version rules; deterministic poll / byte / EOF-poll counters instead of timeouts",
+         "Exploration with generated values plus exhaustive header enumeration (all type and version bytes, boundary lengths) and all truncation points per generated sequence; hang detection is by counting polls of an exhausted in-memory reader, so it is deterministic.",
+         "In-memory AsyncRead that never returns Pending; announced lengths above 1 MiB are not handed to allocating body readers (memory is not part of the statement); reference length rules from RFC 8210 / 8210bis as implemented.",
+         "DESIGN.md §3 C07"),
+ "C08": ("metamorphic + model PBT over schedules: generated client byte streams x fragmentations x notify interleavings against the real rtr::Server; output minus Serial Notify must equal the one-chunk no-notify reference run; independent PDU parser; exhaustive 2-chunk splits x notify positions for single-query streams",
+         "Exploration of generated schedules on a harness-owned single-threaded executor (settle points make the interleaving exactly the generated one) plus a complete enumeration of two-chunk splits with notify placements for 25 single-PDU streams.",
+         "Harness owns the scheduler (current_thread runtime); multi-threaded races are outside the statement; behaviour after the first malformed query is only compared metamorphically.",
+         "DESIGN.md §3 C08"),
+ "C13": ("PBT against an integer address-range model + exhaustive pairs/triples over a boundary-dense prefix domain; BTreeSet as reference for AS-number set algebra",
+         "Random exploration of every constructor / text / serde path with a model on integers, complete enumeration of all ordered pairs and triples over a boundary-dense domain of valid prefixes for covers / total-order / hash laws, random RouteOrigin triples and AS multisets with forced duplicates.",
+         "std::net address parsing/formatting and BTreeSet are trusted; the pair/triple domain is boundary-dense, not all prefixes.",
+         "DESIGN.md §3 C13"),
+ "C15": ("exhaustive small-domain enumeration of filter x payload combinations + random filter lists and whole files; reference drop predicate on integer address ranges; JSON round trip through all four serialiser forms",
+         "Complete enumeration of the criterion-presence x match-relation domain for all three filter kinds against 9 payloads, plus random exploration of larger filter lists and of whole files for the serde round trip and iter_payload.",
+         "Reference predicate written from the statement; serde_json is trusted as the JSON reader/writer.",
+         "DESIGN.md §3 C15"),
 }
 PENDING = {}
 ALL = ["C%02d" % i for i in range(1, 18)]
